@@ -342,6 +342,9 @@ func TestC06(t *testing.T) {
 			// entries without text (absent under the normal form) behind, in front of and between the entries that have one
 			{{Ref: "en", Value: ap.Content(s)}, {Ref: "fr", Value: ap.Content("deuxième " + s)}, {Ref: "de", Value: ap.Content("")}},
 			{{Ref: "de", Value: nil}, {Ref: "en", Value: ap.Content(s)}, {Ref: "it", Value: ap.Content("")}, {Ref: "fr", Value: ap.Content("deuxième " + s)}, {Ref: "pt", Value: nil}},
+			// ... and maps in which exactly one entry has a text
+			{{Ref: "en", Value: ap.Content(s)}, {Ref: "de", Value: ap.Content("")}},
+			{{Ref: "de", Value: nil}, {Ref: "en", Value: ap.Content(s)}},
 		}
 	}
 	enumTypes := map[string]bool{"Object": true, "Actor": true, "Activity": true, "Collection": true, "Link": true}
